@@ -16,6 +16,12 @@
 //         swaprec:<size>:<a>:<b> | replay:<size>:<from>:<to>   records of <size> bytes swapped / replayed
 //         macshift:<size>:<row>:<word>:<delta>    MAC-consistent change of a shuffle row (delta in the word, key*delta in the tag)
 //       response: `abort-or-same abort:<kind>` | `abort-or-same same` | `changed <histogram>` | `untouched`
+//   c02.recorded <shards> <pad> <records>
+//       honest run in a world of its own; response `t:<gates with helper-to-helper traffic> r:<gates whose multiplication
+//       intermediates were pushed into a DZKP batch>` (full gate names, run prefix dropped, `,`-separated, sorted)
+//   c02.extraclasses <shards> <pad> <records>
+//       honest run; response: the gate classes this configuration has on top of the basic one-shard configuration,
+//       `<class>:<sending helpers>` `,`-separated (the last layers of the query: suite c02_lastlayer)
 use std::sync::{Arc, Mutex};
 
 use futures::future::try_join3;
@@ -95,6 +101,27 @@ pub struct Recorder {
     pub hits: Mutex<usize>,
     /// bytes seen on the key-opening gates of the shuffles (`…/verify_shuffle/reveal_m_a_c_key`)
     pub key_msgs: Mutex<std::collections::BTreeMap<(String, u8, u8, Option<u32>), Vec<u8>>>,
+    /// run gate of the world (`c02w<k>`) when the recorded DZKP gates of the run are wanted
+    pub world_tag: Option<String>,
+}
+
+/// Gates whose multiplication intermediates were pushed into a DZKP batch (`Batch::push`, reported through the guarded
+/// hook in dzkp_validator.rs), per world started by `c02.recorded` (key = the world's run gate `c02w<k>`).
+static PUSHED: Mutex<std::collections::BTreeMap<String, std::collections::BTreeSet<String>>> = Mutex::new(std::collections::BTreeMap::new());
+static WORLDS: std::sync::atomic::AtomicUsize = std::sync::atomic::AtomicUsize::new(0);
+
+pub fn note_push(gate: &str) {
+    let mut it = gate.split('/').filter(|s| !s.is_empty());
+    if let (Some(_), Some(w)) = (it.next(), it.next()) {
+        if w.starts_with("c02w") {
+            PUSHED.lock().unwrap_or_else(|e| e.into_inner()).entry(w.to_string()).or_default().insert(gate.to_string());
+        }
+    }
+}
+
+/// `protocol/c02w3/a/b12` -> `a/b12`
+fn strip_run(g: &str) -> String {
+    g.split('/').filter(|s| !s.is_empty()).skip(2).collect::<Vec<_>>().join("/")
 }
 
 fn hid(h: HelperIdentity) -> u8 {
@@ -323,6 +350,11 @@ async fn run_query<const SHARDS: usize>(
 ) -> Outcome {
     let mut config = TestWorldConfig::default().with_timeout_secs(secs);
     config.seed = seed;
+    // a run whose recorded DZKP gates are wanted (`c02.recorded`) gets its own run gate `protocol/c02w<k>` instead
+    // of `protocol/iter000`, so that the registry can tell its pushes from those of the worlds of other tests
+    if let Some(tag) = recorder.world_tag.as_ref() {
+        config.initial_gate = Some(ipa_step::StepNarrow::narrow(&crate::protocol::Gate::default(), tag.as_str()));
+    }
     config.stream_interceptor = recorder;
     let world = TestWorld::<WithShards<SHARDS>>::with_shards(config);
     let mut rng = Rng(seed ^ 0x5555);
@@ -469,6 +501,39 @@ pub fn exec(req: &str) -> String {
                 Outcome::Abort(k) => format!("abort:{k}"),
                 Outcome::Inconsistent => "abort:inconsistent".into(),
             }
+        }
+        "c02.recorded" => {
+            // honest run in a world of its own; response: every gate with helper-to-helper traffic (`t:`) and every gate
+            // recorded in a DZKP batch (`r:`), run prefix dropped, sorted
+            let tag = format!("c02w{}", WORLDS.fetch_add(1, std::sync::atomic::Ordering::SeqCst));
+            let rec = Arc::new(Recorder { world_tag: Some(tag.clone()), ..Default::default() });
+            let o = run_blocking(t[1].parse().unwrap(), rec.clone(), pad_of(t[2]), c01::parse_records(t[3]), seed_of(t[1], t[2], t[3]), 60, None);
+            let traffic: std::collections::BTreeSet<String> =
+                rec.seen.lock().unwrap().iter().filter(|(_, n)| **n > 0).map(|(k, _)| strip_run(&k.0)).collect();
+            let pushed: std::collections::BTreeSet<String> =
+                PUSHED.lock().unwrap().remove(&tag).unwrap_or_default().iter().map(|g| strip_run(g)).collect();
+            let join = |s: &std::collections::BTreeSet<String>| if s.is_empty() { "-".to_string() } else { s.iter().cloned().collect::<Vec<_>>().join(",") };
+            match o {
+                Outcome::Hist(_) => format!("t:{} r:{}", join(&traffic), join(&pushed)),
+                Outcome::Abort(k) => format!("abort:{k}"),
+                Outcome::Inconsistent => "abort:inconsistent".into(),
+            }
+        }
+        "c02.extraclasses" => {
+            // the gate classes (with the senders seen) that this configuration has on top of the basic one
+            let m = extra_classes(t[1].parse().unwrap(), t[2], t[3]);
+            if m.is_empty() {
+                return "-".into();
+            }
+            m.iter()
+                .map(|(class, members)| {
+                    let mut s: Vec<u8> = members.iter().map(|c| c.1).collect();
+                    s.sort_unstable();
+                    s.dedup();
+                    format!("{class}:{}", s.iter().map(|x| x.to_string()).collect::<String>())
+                })
+                .collect::<Vec<_>>()
+                .join(",")
         }
         "c02.tamper" => {
             let shards: usize = t[1].parse().unwrap();
@@ -768,6 +833,85 @@ fn verif_c02_tamper() {
     );
 }
 
+/// ten attributed pairs with the same breakdown key (> the aggregation proof chunk of 8 rows in test builds, so the
+/// breakdown aggregation of a single shard needs a second level: a saturating addition of two 32-bit intermediate
+/// histograms) plus a few other rows
+pub const RECS_DEEP: &str = "i:101:5,c:101:1,i:102:5,c:102:2,i:103:5,c:103:3,i:104:5,c:104:1,i:105:5,c:105:2,i:106:5,c:106:3,i:107:5,c:107:1,i:108:5,c:108:2,i:109:5,c:109:3,i:110:5,c:110:1,i:111:7,c:111:6,c:112:4,i:113:9";
+
+/// gate classes of a configuration that the basic one-shard configuration (`RECS`) does not have
+fn extra_classes(shards: usize, pad: &str, recs: &str) -> std::collections::BTreeMap<String, Vec<Chan>> {
+    let base: std::collections::BTreeSet<String> =
+        list_channels(1, "0", RECS).iter().filter(|c| c.4 > 0).map(|c| normalize_gate(&c.0)).collect();
+    let mut classes: std::collections::BTreeMap<String, Vec<Chan>> = Default::default();
+    for c in list_channels(shards, pad, recs) {
+        let class = normalize_gate(&c.0);
+        if c.4 > 0 && !base.contains(&class) {
+            classes.entry(class).or_default().push(c);
+        }
+    }
+    classes
+}
+
+/// The LAST layers of a query (b14, seed C02c): gate classes that exist only with two shards (the `finalize` step:
+/// the leader shard merges the other shards' histograms with a saturating addition) or only when the breakdown
+/// aggregation of a shard needs more than one proof chunk (`…/saturating_add/{add,select}`). Nothing is computed after
+/// these gates in a query without DP noise, so a message altered here is caught by the proof of exactly this step or
+/// not at all. Deterministically: for every such class that carries multiplication traffic (`…/bit#`) one case per
+/// sending helper, on the last addition of the class (greatest gate name) — every lane of these 256-lane messages is a
+/// histogram bucket; for the other classes (the proof messages of the step's validator) one case.
+fn gen_last_layers(rng: &mut Rng, thorough: bool, shards: usize, pad: &str, recs: &str, out: &mut Vec<String>) {
+    let head = format!("c02.tamper {shards} {pad} {recs}");
+    out.push(format!("c02.extraclasses {shards} {pad} {recs}"));
+    let mut first = true;
+    for (class, members) in extra_classes(shards, pad, recs) {
+        if !class.ends_with("/bit#") {
+            let c = rng.pick(&members).clone();
+            let n = c.4;
+            out.push(format!("{head} H{} {}", c.1, act(&c, &blind_pattern(rng, 4, n))));
+            continue;
+        }
+        // the last addition of the class: greatest parent gate
+        let parent = |g: &str| g.rsplit_once('/').map_or(String::new(), |x| x.0.to_string());
+        let last = members.iter().map(|c| parent(&c.0)).max().unwrap();
+        for sender in 1..=3u8 {
+            let cand: Vec<&Chan> = members.iter().filter(|c| c.1 == sender && parent(&c.0) == last).collect();
+            if cand.is_empty() {
+                continue;
+            }
+            for k in 0..(if thorough { 6 } else { 1 }) {
+                let c: Chan = (*rng.pick(&cand)).clone();
+                // the first case is the smallest change there is: bit 0 of the first byte (bucket 0)
+                let pat = if first { "flip:0:0".to_string() } else if k % 2 == 0 {
+                    format!("flip:{}:{}", rng.usize_below(c.4), rng.below(8))
+                } else {
+                    format!("add:{}:{}", rng.usize_below(c.4), 1 + rng.below(255))
+                };
+                first = false;
+                out.push(format!("{head} H{} {}", c.1, act(&c, &pat)));
+            }
+        }
+    }
+}
+
+#[test]
+fn verif_c02_lastlayer() {
+    run_suite(
+        "c02_lastlayer",
+        |rng, thorough| {
+            let mut out = vec![];
+            gen_last_layers(rng, thorough, 1, "0", RECS_DEEP, &mut out);
+            // the finalize step does not depend on the number of rows: a small query keeps the two-shard runs short
+            gen_last_layers(rng, thorough, 2, "0", RECS_DEEP, &mut out);
+            if thorough {
+                let big = big_records(rng);
+                gen_last_layers(rng, thorough, 2, "0", &big, &mut out);
+            }
+            out
+        },
+        exec,
+    );
+}
+
 #[test]
 fn verif_c02_channels() {
     run_suite(
@@ -779,6 +923,10 @@ fn verif_c02_channels() {
                 format!("c02.channels 1 1 {RECS}"),
                 format!("c02.channels 2 0 {big}"),
                 format!("c02.shardtraffic 2 0 {big}"),
+                // every gate with multiplication traffic inside a DZKP-validated step is recorded in the validator's batch
+                format!("c02.recorded 1 0 {RECS_DEEP}"),
+                format!("c02.recorded 1 1 {RECS}"),
+                format!("c02.recorded 2 0 {RECS_DEEP}"),
             ]
         },
         exec,
